@@ -46,8 +46,10 @@ RULE = ("random scenarios built through the public constructors (0..6 lanelets i
         "CustomState with (velocity, velocity_y) and no orientation, with orientation, with neither, with all three; 0..2 planning "
         "problems with 1..3 goal states and a goal-lanelet table that is None, a dict or a collections.defaultdict, complete or with "
         "missing keys) x a sequence of 5..12 read-only operations out of 40 kinds (occupancy/state/lanelet/traffic-light queries, "
-        "goal checks on own and foreign states, ==, hash, copy, deepcopy, pickle, network copies, str, draw+render, XML and protobuf "
-        "export); 6 of every 20 cases are directed (merge of lanelets with different obstacle registrations, orientation-less "
+        "goal checks on own and foreign states, ==, hash, copy, deepcopy, pickle, network copies, str, draw+render (with 0..5 of 22 "
+        "draw parameters moved off their defaults, e.g. traffic signs shown, speed-limit unit, intersections, labels; whole scenario, "
+        "planning problems, or signs / lights / network / obstacles handed to the renderer directly), XML and protobuf "
+        "export); 8 of every 20 cases are directed (a real speed-limit sign that gets rendered, merge of lanelets with different obstacle registrations, orientation-less "
         "trajectory queried, table with missing keys exported, goal check on scenario-owned states); a case is one (scenario, "
         "sequence); non-trivial = every case (>= 5 operations, each followed by a snapshot and both exports); distinct = distinct "
         "canonical JSON")
@@ -67,7 +69,7 @@ ASSUMPTIONS = [
     "of other side effects of those calls is decided by the oracle",
 ]
 TRUSTED = ["matplotlib Agg backend, lxml, protobuf runtime (used only to run the operations under test and to erase the date)"]
-REQUIRED_BUCKETS = ["op:reached_own", "traj:custom-full", "op:occ", "op:state", "op:occs", "op:find_pos", "op:light", "op:reached", "op:eq", "op:hash", "op:copy",
+REQUIRED_BUCKETS = ["draw:speed-limit-sign-rendered", "draw-flag:draw_traffic_signs", "draw:signs", "op:reached_own", "traj:custom-full", "op:occ", "op:state", "op:occs", "op:find_pos", "op:light", "op:reached", "op:eq", "op:hash", "op:copy",
                     "op:deepcopy", "op:pickle", "op:draw", "op:write_xml", "op:write_pb", "op:occset",
                     "traj:custom-vvy", "traj:pm", "traj:ks", "pred:set", "shape:group",
                     "tbl:defaultdict-missing", "tbl:dict-missing", "tbl:none", "export:xml-ok", "export:pb-ok", "merge:ids-to-merge",
@@ -177,7 +179,12 @@ def gen_spec(r, tiny=False):
     spec["intersections"] = []
     if lids:
         for i in range(r.choice([0, 1, 2])):
-            spec["signs"].append({"id": 300 + i, "elem": r.choice(["MAX_SPEED", "STOP", "YIELD"]), "values": [str(r.randint(5, 50))],
+            country, elem = r.choice([["Zamunda", "MAX_SPEED"], ["Zamunda", "MAX_SPEED"], ["Germany", "MAX_SPEED"], ["Usa", "MAX_SPEED"],
+                                      ["Germany", "MIN_SPEED"], ["Spain", "MAX_SPEED"], ["Zamunda", "STOP"], ["Zamunda", "YIELD"]])
+            values = [r.choice([str(r.randint(5, 50)), "13.89", "8.33", str(r.randint(50, 300) / 10.0)])] + (["7.5"] if r.random() < 0.2 else [])
+            if elem in ("STOP", "YIELD") and r.random() < 0.5:
+                values = []
+            spec["signs"].append({"id": 300 + i, "country": country, "elem": elem, "values": values,
                                   "first": sorted(r.sample(lids, 1)), "pos": [_f(r, 0, 60), _f(r, 0, 8)], "virtual": r.random() < 0.3,
                                   "lanelets": sorted(r.sample(lids, r.randint(1, min(2, len(lids)))))})
         for i in range(r.choice([0, 1, 1, 2])):
@@ -286,6 +293,48 @@ def _obstacle_ids(spec, roles=("static", "dynamic", "env", "phantom")):
     return [o["id"] for k in roles for o in spec[k]]
 
 
+# draw parameters that are varied away from their defaults (path below MPDrawParams, values).  Left at their defaults: the
+# parameters the model's draw operation depends on besides those it takes as arguments (dynamic_obstacle.draw_shape /
+# draw_signals, traffic_light.draw_traffic_lights).
+DRAW_FLAGS = [
+    ("lanelet_network.traffic_sign.draw_traffic_signs", [True]),
+    ("lanelet_network.traffic_sign.show_label", [True]),
+    ("lanelet_network.traffic_sign.speed_limit_unit", ["auto", "kmh", "mph", "ms"]),
+    ("lanelet_network.traffic_sign.scale_factor", [0.5]),
+    ("lanelet_network.traffic_light.show_label", [True]),
+    ("lanelet_network.intersection.draw_intersections", [True]),
+    ("lanelet_network.intersection.show_label", [True]),
+    ("lanelet_network.intersection.draw_crossings", [False]),
+    ("lanelet_network.lanelet.show_label", [True]),
+    ("lanelet_network.lanelet.draw_border_vertices", [True]),
+    ("lanelet_network.lanelet.unique_colors", [True]),
+    ("lanelet_network.lanelet.colormap_tangent", [True]),
+    ("lanelet_network.lanelet.fill_lanelet", [False]),
+    ("lanelet_network.lanelet.draw_line_markings", [False]),
+    ("lanelet_network.lanelet.draw_stop_line", [False]),
+    ("lanelet_network.lanelet.draw_start_and_direction", [False]),
+    ("dynamic_obstacle.show_label", [True]),
+    ("dynamic_obstacle.draw_direction", [True]),
+    ("dynamic_obstacle.trajectory.draw_continuous", [True]),
+    ("dynamic_obstacle.trajectory.unique_colors", [True]),
+    ("static_obstacle.occupancy.shape.opacity", [0.5]),
+    ("planning_problem_set.planning_problem.initial_state.state.draw_arrow", [True]),
+]
+
+
+def gen_draw(r, whats):
+    tb = r.choice([0, 0, 1, 2, 5])
+    flags = []
+    if r.random() < 0.6:
+        flags.append(["lanelet_network.traffic_sign.draw_traffic_signs", True])       # off by default: signs are never rendered otherwise
+    for path, vals in r.sample(DRAW_FLAGS, r.randint(0, 4)):
+        if all(f[0] != path for f in flags):
+            flags.append([path, r.choice(vals)])
+    return ["draw", {"what": r.choice(whats), "tb": tb, "te": tb + r.choice([1, 3, 6]),
+                     "occ": r.random() < 0.5, "traj": r.random() < 0.5, "icon": r.random() < 0.2,
+                     "init": r.random() < 0.3, "hist": r.random() < 0.2, "flags": flags}]
+
+
 def gen_ops(r, spec, n=None, allow_draw=True):
     n = n or r.randint(5, 11)
     ops = []
@@ -370,10 +419,7 @@ def gen_ops(r, spec, n=None, allow_draw=True):
         elif k in ("eq", "hash", "copy", "deepcopy", "pickle", "str"):
             ops.append([k, r.choice(targets[:3] * 3 + targets)])
         elif k == "draw":
-            tb = r.choice([0, 0, 1, 2, 5])
-            ops.append(["draw", {"what": r.choice(["scenario", "both", "both", "pps"]), "tb": tb, "te": tb + r.choice([1, 3, 6]),
-                                 "occ": r.random() < 0.5, "traj": r.random() < 0.5, "icon": r.random() < 0.2,
-                                 "init": r.random() < 0.3, "hist": r.random() < 0.2}])
+            ops.append(gen_draw(r, ["scenario", "both", "both", "pps", "signs", "lights", "network", "obstacles"]))
         elif k == "write_xml":
             ops.append(["write_xml", r.choice(["full", "full", "scenario"])])
         elif k == "write_pb":
@@ -436,6 +482,19 @@ def gen_case(ctx, tiny=False, allow_draw=True, recipe=None):
                                                          ["occs", d["pred"]["t1"], None],
                                                          ["by_interval", [-10.0, 70.0], [-5.0, 15.0], d["pred"]["t1"]]]))
             return {"spec": spec, "ops": ops}
+        if recipe == "sign":
+            # a real (non-virtual) speed-limit sign with a numeric value, and a rendering that shows traffic signs: through the
+            # draw parameter (off by default) or by handing the signs to the renderer
+            if not any(not x["virtual"] and x["elem"] in ("MAX_SPEED", "MIN_SPEED") and x["values"] for x in spec["signs"]):
+                continue
+            ops = gen_ops(r, spec, allow_draw=False)
+            d = gen_draw(r, ["scenario", "both", "network", "signs"])
+            if d[1]["what"] != "signs" and ["lanelet_network.traffic_sign.draw_traffic_signs", True] not in d[1]["flags"]:
+                d[1]["flags"].append(["lanelet_network.traffic_sign.draw_traffic_signs", True])
+            ops.insert(r.randint(0, len(ops)), d)
+            if r.random() < 0.5:
+                ops.insert(r.randint(0, len(ops)), gen_draw(r, ["signs"]))
+            return {"spec": spec, "ops": ops}
         if recipe == "tbl":
             if not any(p["tbl"] and len(p["tbl"]["items"]) < len(p["goals"]) for p in spec["problems"]):
                 continue
@@ -458,10 +517,7 @@ def gen_case(ctx, tiny=False, allow_draw=True, recipe=None):
         break
     ops = gen_ops(r, spec, allow_draw=allow_draw)
     if allow_draw and not any(o[0] == "draw" for o in ops):
-        tb = r.choice([0, 0, 1, 2])
-        ops.insert(r.randint(0, len(ops)), ["draw", {"what": r.choice(["scenario", "both"]), "tb": tb, "te": tb + r.choice([1, 3, 6]),
-                                                     "occ": r.random() < 0.5, "traj": r.random() < 0.5, "icon": r.random() < 0.2,
-                                                     "init": r.random() < 0.3, "hist": r.random() < 0.2}])
+        ops.insert(r.randint(0, len(ops)), gen_draw(r, ["scenario", "scenario", "both", "both", "signs", "network"]))
     return {"spec": spec, "ops": ops}
 
 
@@ -575,7 +631,8 @@ def build(spec):
                                stop_line=sl, lanelet_type={LaneletType[t] for t in l["types"]},
                                user_one_way={RoadUser[t] for t in l["one_way"]}, user_bidirectional={RoadUser[t] for t in l["bidir"]}))
     for s in spec["signs"]:
-        sc.add_objects(TrafficSign(s["id"], [TrafficSignElement(TrafficSignIDZamunda[s["elem"]], list(s["values"]))], set(s["first"]),
+        import commonroad.scenario.traffic_sign as _ts
+        sc.add_objects(TrafficSign(s["id"], [TrafficSignElement(getattr(_ts, "TrafficSignID" + s.get("country", "Zamunda"))[s["elem"]], list(s["values"]))], set(s["first"]),
                                    _np(s["pos"]), s["virtual"]), set(s["lanelets"]))
     tls = list(TrafficLightState)
     for s in spec["lights"]:
@@ -1002,11 +1059,30 @@ def do_draw(sc, pps, p):
         dp.dynamic_obstacle.draw_initial_state = p["init"]
         dp.dynamic_obstacle.history.draw_history = p["hist"]
         dp.phantom_obstacle.occupancy.draw_occupancies = p["occ"]
+        for path, val in p.get("flags", []):
+            obj = dp
+            *head, last = path.split(".")
+            for part in head:
+                obj = getattr(obj, part)
+            setattr(obj, last, val)
         rnd = MPRenderer(ax=ax, draw_params=dp)
-        if p["what"] in ("scenario", "both"):
+        what = p["what"]
+        if what in ("scenario", "both"):
             sc.draw(rnd)
-        if p["what"] in ("pps", "both"):
+        if what in ("pps", "both"):
             pps.draw(rnd)
+        # single objects drawn directly (a sign or light handed to the renderer is rendered whatever draw_traffic_signs says)
+        if what == "signs":
+            for x in sc.lanelet_network.traffic_signs:
+                x.draw(rnd)
+        if what == "lights":
+            for x in sc.lanelet_network.traffic_lights:
+                x.draw(rnd)
+        if what == "network":
+            sc.lanelet_network.draw(rnd)
+        if what == "obstacles":
+            for x in sc.obstacles:
+                x.draw(rnd)
         rnd.render()
         return True
     finally:
@@ -1456,6 +1532,8 @@ def model_op(op, P, spy, env):
         ans = _LAST.get("answer")
         paths = [p[1:] for p in ans[0]] if ans else []          # the routes depend on lanelet lengths: taken from the answer
         return ["mergeFrom", op[1], paths], "regs"
+    if k == "draw" and op[1]["what"] in ("signs", "lights", "network", "obstacles"):
+        return ["reads", spy.occ, spy.light], "skip"
     if k == "draw":
         from commonroad.geometry.shape import Rectangle
         from commonroad.visualization.icons import supported_icons
@@ -1602,6 +1680,14 @@ def run_case(ctx, case, with_model=True, old_pb=False):
         ctx.tag(f"export:{fmt}-{ref[fmt][0]}" + ("" if ref[fmt][0] == "ok" else ":" + ref[fmt][1]))
     for i, op in enumerate(ops):
         ctx.tag("op:" + op[0])
+        if op[0] == "draw":
+            ctx.tag("draw:" + op[1]["what"])
+            for f in op[1].get("flags", []):
+                ctx.tag("draw-flag:" + f[0].split(".")[-1])
+            shown = op[1]["what"] == "signs" or (op[1]["what"] in ("scenario", "both", "network")
+                                                 and ["lanelet_network.traffic_sign.draw_traffic_signs", True] in op[1].get("flags", []))
+            if shown and any(not x["virtual"] and x["elem"] in ("MAX_SPEED", "MIN_SPEED") and x["values"] for x in spec["signs"]):
+                ctx.tag("draw:speed-limit-sign-rendered")
         if op[0] == "lanelet_q":
             ctx.tag("lanelet_q:" + op[2])
             if op[2] in ("merge_succ", "merge_pred") and _merge_moves_ids(spec, op[1], op[2]):
@@ -1789,7 +1875,7 @@ def run(ctx):
         run_case(ctx, json.load(open(p)))
     n = ctx.n(110)
     for i in range(n):
-        recipe = {1: "merge", 6: "vvy", 11: "tbl", 13: "reach", 16: "merge", 18: "reach"}.get(i % 20)
+        recipe = {1: "merge", 3: "sign", 6: "vvy", 8: "sign", 11: "tbl", 13: "reach", 16: "merge", 18: "reach"}.get(i % 20)
         run_case(ctx, gen_case(ctx, tiny=(i % 4 == 3 and recipe is None), allow_draw=(i % 5 == 0), recipe=recipe))
 
 
